@@ -361,12 +361,6 @@ func (pe *pEval) tuple(s *peState, v ssa.Value) ([]constant.Value, bool) {
 func (pe *pEval) call(fn *ssa.Function, b *ssa.BasicBlock, i int, x *ssa.Call, s *peState, depth int,
 	done func(s *peState, label string, ret []constant.Value),
 	push func(ns *peState, nb *ssa.BasicBlock, ni int, np *ssa.BasicBlock), prev *ssa.BasicBlock) bool {
-	if pe.cfg.BindVal != nil {
-		if c, ok := pe.cfg.BindVal(x); ok {
-			s.env[x] = c
-			return true
-		}
-	}
 	cc := &x.Call
 	if bi, ok := cc.Value.(*ssa.Builtin); ok {
 		switch bi.Name() {
@@ -411,6 +405,12 @@ func (pe *pEval) call(fn *ssa.Function, b *ssa.BasicBlock, i int, x *ssa.Call, s
 		args[k] = render(argv[k])
 	}
 	s.calls = append(s.calls, PECall{name, args, x})
+	if pe.cfg.BindVal != nil {
+		if c, ok := pe.cfg.BindVal(x); ok {
+			s.env[x] = c
+			return true
+		}
+	}
 	if sc == nil || !pe.p.inPkg(sc) || sc.Blocks == nil || pe.cfg.Opaque[sc] || depth >= pe.cfg.MaxDepth {
 		// unknown result; fields may have been changed by an in-package opaque callee
 		if sc != nil && pe.p.inPkg(sc) && sc.Blocks != nil {
